@@ -43,6 +43,9 @@ type Msg struct {
 
 type Script struct {
 	Msgs []Msg `json:"msgs"`
+	// Spell: how the peer spells its JSON (memio.Respell mode): escape sequences inside strings and spaces
+	// that do not change the meaning of any message.
+	Spell int `json:"spell,omitempty"`
 }
 
 var methods = []string{
@@ -70,6 +73,7 @@ func genScript(rt *rapid.T) Script {
 		}
 		s.Msgs = append(s.Msgs, m)
 	}
+	s.Spell = rapid.SampledFrom([]int{0, 0, 0, 1, 2, 3, 4}).Draw(rt, "spell")
 	return s
 }
 
@@ -235,7 +239,7 @@ func runInBubble(s Script) (res vt.Result) {
 		mu.Unlock()
 		ipBefore := ss.InitializeParams()
 
-		line := m.wire(i)
+		line := memio.Respell(m.wire(i), s.Spell)
 		if err := peer.Send(line); err != nil {
 			res.Failf("msg %d: connection no longer writable (session torn down?): %v", i, err)
 			return
@@ -472,6 +476,9 @@ func runInBubble(s Script) (res vt.Result) {
 		res.Class("mixes_meta_and_legacy")
 	}
 	res.Class("final_phase_" + phase)
+	if s.Spell != 0 {
+		res.Class(fmt.Sprintf("respelled_json_mode_%d", s.Spell))
+	}
 	return res
 }
 
